@@ -33,10 +33,14 @@ pub struct NodeCfg {
     /// 0 advance_frame, 1 advance_frame_with_wait, 2 advance_frame_with_wait_timeout(wait_ms)
     pub wait: u8,
     pub wait_ms: u64,
+    /// windows (ms after T0) in which the application only polls (a paused game that keeps its session alive):
+    /// every tick is a bare poll_remote_clients, nothing is advanced
+    #[serde(default)]
+    pub poll_only: Vec<(u64, u64)>,
 }
 impl Default for NodeCfg {
     fn default() -> Self {
-        NodeCfg { skew: 0.0, jitter_ms: 2, pauses: vec![], polls_per_tick: 1, drain: true, wait: 0, wait_ms: 0 }
+        NodeCfg { skew: 0.0, jitter_ms: 2, pauses: vec![], polls_per_tick: 1, drain: true, wait: 0, wait_ms: 0, poll_only: vec![] }
     }
 }
 
@@ -147,6 +151,12 @@ pub struct Scn {
     pub keep_log: bool,
     /// bound on the history the shadow games retain (C18 constant-memory mode)
     pub keep_frames: Option<usize>,
+    /// the games save their states without a checksum (only meaningful with desync detection off)
+    #[serde(default)]
+    pub no_checksum: bool,
+    /// a second peer that dies (later than `kill`)
+    #[serde(default)]
+    pub kill2: Option<Kill>,
 }
 
 impl Scn {
@@ -178,6 +188,8 @@ impl Scn {
             limit_ms: 0,
             keep_log: false,
             keep_frames: None,
+            no_checksum: false,
+            kill2: None,
         }
     }
     pub fn num_players(&self) -> usize {
